@@ -150,69 +150,9 @@ func fpFromBits(bits uint64, w int) *Term {
 // lemmaHoldsAt evaluates the bit-precise form of a lemma at concrete inputs.
 // Returns (holds, evaluated).
 func (s *Session) lemmaHoldsAt(prop, lemma string, ki *KernelInfo, key string, inst *Inst, x, y *Term) (bool, bool) {
-	u := ki.U
-	var goal *Term
-	var assume []*Term
-	kx := ki.apply(x)
-	var ky *Term
-	if y != nil {
-		ky = ki.apply(y)
-	}
-	one, mone := fp64(big.NewInt(1)), fp64(big.NewInt(-1))
-	switch {
-	case isIntegerT(ki.S) && isIntegerT(ki.D): // C06 / C07: the lemma is bit-precise already
+	assume, goal := bitPreciseLemma(lemma, ki, x, y)
+	if goal == nil {
 		return false, false
-	case isFloatT(ki.S): // C08
-		xd := widen64(ki.S, x)
-		switch lemma {
-		case "mono":
-			if y == nil {
-				return false, false
-			}
-			assume = []*Term{fpLe(xd, widen64(ki.S, y))}
-			goal = leCode(ki.D, kx, ky)
-		case "accuracy-positive", "accuracy-nonpositive":
-			d := u.widthOf(ki.D)
-			if d > 32 {
-				return false, false
-			}
-			A := sbvToFP("RNE", u.amp(ki.D, kx, d+1))
-			fs := fp64(new(big.Int).Sub(pow2(d-1), big.NewInt(1)))
-			if lemma == "accuracy-nonpositive" {
-				fs = fp64(pow2(d - 1))
-			}
-			lo, hi := fpOp("fp.mul", "RTN", xd, fs), fpOp("fp.mul", "RTP", xd, fs)
-			assume = []*Term{fpLt(mone, xd), fpLt(xd, one)}
-			goal = And(fpLe(fpOp("fp.sub", "RNE", A, one), lo), fpLe(hi, fpOp("fp.add", "RNE", A, one)))
-		default:
-			return false, false
-		}
-	default: // C09
-		kxd := widen64(ki.D, kx)
-		d := u.widthOf(ki.S)
-		switch lemma {
-		case "range":
-			goal = And(fpLe(mone, kxd), fpLe(kxd, one))
-		case "mono":
-			if y == nil {
-				return false, false
-			}
-			assume = []*Term{leCode(ki.S, x, y)}
-			goal = fpLe(kxd, widen64(ki.D, ky))
-		case "accuracy":
-			W := d + 1
-			amp := u.amp(ki.S, x, W)
-			a := sbvToFP("RNE", amp)
-			fs := Ite(mk("bvsgt", SBool, amp, BVLit64(0, W)), fp64(new(big.Int).Sub(pow2(d-1), big.NewInt(1))), fp64(pow2(d-1)))
-			e := -49
-			if basicOf(ki.D).Kind() == types.Float32 {
-				e = -21
-			}
-			tol := fpOp("fp.add", "RNE", fp64pow(-(d - 1)), fp64pow(e))
-			goal = fpLe(mk("fp.abs", f64, fpOp("fp.sub", "RNE", kxd, fpOp("fp.div", "RNE", a, fs))), tol)
-		default:
-			return false, false
-		}
 	}
 	// holds iff assumptions are false or goal true at this point
 	ctx := NewCtx()
@@ -228,6 +168,82 @@ func (s *Session) lemmaHoldsAt(prop, lemma string, ki *KernelInfo, key string, i
 		return false, true
 	}
 	return false, false
+}
+
+// bitPreciseLemma: the bit-precise (IEEE-754 / bit-vector) statement of a
+// standard-model lemma of C08 / C09 at inputs x (and y); nil goal if there is none.
+func bitPreciseLemma(lemma string, ki *KernelInfo, x, y *Term) ([]*Term, *Term) {
+	u := ki.U
+	var goal *Term
+	var assume []*Term
+	kx := ki.apply(x)
+	var ky *Term
+	if y != nil {
+		ky = ki.apply(y)
+	}
+	one, mone := fp64(big.NewInt(1)), fp64(big.NewInt(-1))
+	switch {
+	case isIntegerT(ki.S) && isIntegerT(ki.D): // C06 / C07: the lemma is bit-precise already
+		return nil, nil
+	case isFloatT(ki.S): // C08
+		xd := widen64(ki.S, x)
+		switch lemma {
+		case "mono":
+			if y == nil {
+				return nil, nil
+			}
+			assume = []*Term{fpLe(xd, widen64(ki.S, y))}
+			goal = leCode(ki.D, kx, ky)
+		case "accuracy-positive", "accuracy-nonpositive":
+			d := u.widthOf(ki.D)
+			if d > 32 {
+				return nil, nil
+			}
+			A := sbvToFP("RNE", u.amp(ki.D, kx, d+1))
+			fs := fp64(new(big.Int).Sub(pow2(d-1), big.NewInt(1)))
+			if lemma == "accuracy-nonpositive" {
+				fs = fp64(pow2(d - 1))
+			}
+			lo, hi := fpOp("fp.mul", "RTN", xd, fs), fpOp("fp.mul", "RTP", xd, fs)
+			assume = []*Term{fpLt(mone, xd), fpLt(xd, one)}
+			goal = And(fpLe(fpOp("fp.sub", "RNE", A, one), lo), fpLe(hi, fpOp("fp.add", "RNE", A, one)))
+		default:
+			return nil, nil
+		}
+	default: // C09
+		kxd := widen64(ki.D, kx)
+		d := u.widthOf(ki.S)
+		switch lemma {
+		case "range":
+			goal = And(fpLe(mone, kxd), fpLe(kxd, one))
+		case "mono":
+			if y == nil {
+				return nil, nil
+			}
+			assume = []*Term{leCode(ki.S, x, y)}
+			goal = fpLe(kxd, widen64(ki.D, ky))
+		case "accuracy":
+			W := d + 1
+			amp := u.amp(ki.S, x, W)
+			a := sbvToFP("RNE", amp)
+			fs := Ite(mk("bvsgt", SBool, amp, BVLit64(0, W)), fp64(new(big.Int).Sub(pow2(d-1), big.NewInt(1))), fp64(pow2(d-1)))
+			e := -49
+			if basicOf(ki.D).Kind() == types.Float32 {
+				e = -21
+			}
+			tol := fpOp("fp.add", "RNE", fp64pow(-(d - 1)), fp64pow(e))
+			goal = fpLe(mk("fp.abs", f64, fpOp("fp.sub", "RNE", kxd, fpOp("fp.div", "RNE", a, fs))), tol)
+		default:
+			return nil, nil
+		}
+	}
+	if isFloatT(ki.S) {
+		assume = append(assume, Not(mk("fp.isNaN", SBool, x)))
+		if y != nil {
+			assume = append(assume, Not(mk("fp.isNaN", SBool, y)))
+		}
+	}
+	return assume, goal
 }
 
 // replayFrequency: C17 lemmas are checked natively with exact rational arithmetic.
